@@ -16,10 +16,15 @@ OnInit(e) ==
         v6 == Add(v5, ~e.test_ok \/ e.bus_injection_kept, "BusInjectionPreserved")
         v7 == Add(v6, ~e.test_ok \/ e.shares_sum_one, "InconsistentSharesReported")
     IN [s EXCEPT !.viol = v7]
+(* the library's own test asked again with one residual set to NaN / inf / above / below the tolerance *)
+OnProbe(e) ==
+    LET v1 == Add(s.viol, e.raised \/ (e.verdict = e.should_pass), "VerdictMatchesResiduals:probe_" \o e.kind)
+        v2 == Add(v1, e.raised \/ e.verdict \/ e.exit_bumped, "FailedInitialisationReported:probe_" \o e.kind)
+    IN [s EXCEPT !.viol = v2]
 OnFlat(e) == [s EXCEPT !.viol = Add(Add(s.viol, ~e.init_ok \/ e.run_ok, "UndisturbedRunCompletes"), ~(e.init_ok /\ e.run_ok) \/ e.stays, "UndisturbedRunStaysAtEquilibrium")]
 Consume ==
     /\ l <= Len(Ev(tid))
-    /\ LET e == Ev(tid)[l] IN s' = CASE e.e = "init" -> OnInit(e) [] e.e = "flat" -> OnFlat(e) [] OTHER -> s
+    /\ LET e == Ev(tid)[l] IN s' = CASE e.e = "init" -> OnInit(e) [] e.e = "probe" -> OnProbe(e) [] e.e = "flat" -> OnFlat(e) [] OTHER -> s
     /\ l' = l + 1 /\ UNCHANGED tid
     /\ (l = Len(Ev(tid))) => PrintT(ToJson([tid |-> Traces[tid].meta.tid, viol |-> s'.viol, drift |-> s'.drift, n |-> Len(Ev(tid))]))
 Spec == Init /\ [][Consume]_vars
